@@ -21,6 +21,9 @@ import E2P.Model.Agg
 import E2P.Spec.AggSpec
 import E2P.Model.Exec
 import E2P.Spec.ExecSpec
+import E2P.Model.Facade
+import E2P.Spec.FacadeSpec
+import E2P.Generated.Facade
 import E2P.Generated.RuntimeConsts
 open E2P
 
@@ -417,6 +420,49 @@ def handleExec (args : List String) : String :=
     let j := fun (os : List Out) => " ; ".intercalate (os.map encOut)
     s!"{j model} | {if valid then j spec else "-"} | "
 
+/-! facade sequences: `fc <ntab> {p e s result} <nops> {P<k> | E<k> | S+ | S- | G | W}`; entry index 0 = none in the table -/
+def genTable : FacadeTable :=
+  { inits := E2P.Generated.facadeInits, assigns := E2P.Generated.facadeAssigns,
+    guard := E2P.Generated.facadeGuard, resets := E2P.Generated.facadeResets }
+
+def parseFOp (t : String) : Option (FOp Nat Nat) :=
+  if t == "S+" then some .enableSafety else if t == "S-" then some .disableSafety
+  else if t == "G" then some .get else if t == "W" then some .write
+  else if t.startsWith "P" then (t.drop 1).toString.toNat?.map .setPath
+  else if t.startsWith "E" then (t.drop 1).toString.toNat?.map .setEntry
+  else none
+
+def encFRes : Except PyExc (Option String) → String
+  | .ok (some t) => t
+  | .ok none => "N"
+  | .error e => "E" ++ e.name
+
+def handleFacade (args : List String) : String :=
+  match (do
+    let (n, r) ← takeNat args
+    let (tab, r) ← parseMany (fun r => match r with
+      | p :: e :: s :: res :: r => do
+        let p ← p.toNat?; let e ← e.toNat?
+        some ((p, e, s == "1", res), r)
+      | _ => none) n r
+    let (m, r) ← takeNat r
+    let ops ← (r.mapM parseFOp)
+    if ops.length = m then some (tab, ops) else none) with
+  | none => "bad-op"
+  | some (tab, ops) =>
+    let tr : Nat → Option Nat → Bool → Except PyExc String := fun p e s =>
+      let ei := match e with | none => 0 | some k => k + 1
+      match tab.find? (fun row => row.1 == p && row.2.1 == ei && row.2.2.1 == s) with
+      | some row => if row.2.2.2.startsWith "E" then .error (PyExc.ofName (row.2.2.2.drop 1).toString) else .ok row.2.2.2
+      | none => .error .unmodelled
+    let outs := (frun genTable tr (initState genTable) ops).2
+    let model := outs.filterMap fun o => o.map encFRes
+    let spec := (List.range ops.length).filterMap fun i =>
+      match ops[i]? with
+      | some (FOp.get) | some (FOp.write) => some (encFRes (freshResult tr (settingsAfter ⟨none, none, true⟩ (ops.take i))))
+      | _ => none
+    s!"{" ".intercalate model} | {" ".intercalate spec} | "
+
 def handle (line : String) : String :=
   match tokens line with
   | "echo" :: rest =>
@@ -432,6 +478,7 @@ def handle (line : String) : String :=
   | "pct" :: rest => handlePct rest
   | "ag" :: rest => handleAgg rest
   | "ex" :: rest => handleExec rest
+  | "fc" :: rest => handleFacade rest
   | _ => "bad-op"
 
 partial def loop (h : IO.FS.Stream) (out : IO.FS.Stream) : IO Unit := do
